@@ -43,6 +43,7 @@ def handleRun (toks impl : List String) : String :=
     else if shouldFail && ret != "err" then "VIOL clause=lt.fault_reported"
     else if !shouldFail && ret != "ok" then "VIOL clause=lt.spurious_error"
     else if !shouldFail && (delivered != total || same != "1") then "VIOL clause=lt.complete"
+    else if !shouldFail && (field impl "complete") == some "0" then "VIOL clause=lt.complete why=gzip-stream-unfinished"
     else if same != "1" then "VIOL clause=lt.prefix"
     else
       -- correspondence with the abstract protocol (plain output: one output write per filter write)
